@@ -1,7 +1,7 @@
 (** C10 — boundary events: interrupting replaces the normal flow, non-interrupting adds.
     Model: Model/Boundary.v — the activity harness as an LTS over any number of entering tokens, any
     boundary events, any schedule of deliveries, listener decisions and answers. *)
-From BV Require Import Model.Boundary Proofs.BoundaryProofs.
+From BV Require Import Model.Boundary Proofs.BoundaryProofs Model.Arming Proofs.ArmingProofs Gen.Facts.
 Open Scope nat_scope.
 
 (* REPLACES, NOT ADDS — every token that entered left by the normal flow, was withdrawn, or is still
@@ -63,3 +63,20 @@ Example C10_nonvacuous :
     [BEvent 0; BEnter; BEvent 0; BFire 0; BEvent 0; BEvent 1; BFire 0; BFire 1; BEvent 0; BEnter; BAnswer] = Some s /\
     normal s = 1 /\ exc s = [2; 1] /\ withdrawn s = 1 /\ entered s = 2 /\ armed s = [false; false].
 Proof. exact boundary_nonvacuous. Qed.
+
+(* BOUNDARY EVENTS ARE LISTENERS TOO (Model/Arming.v): the harness opens itself for events before it arms the boundary
+   events one after the other — [src_active_before_arm], read off activity.go on every run — so an event delivered the
+   moment a boundary event announces that it listens, while the others are still being armed, is forwarded to it:
+   for any number of boundary events and any moment of the arming *)
+Theorem C10_announced_boundary_listener_gets_its_event : forall n s, areach src_active_before_arm n s -> dropped s = 0.
+Proof. exact announced_listener_gets_its_event. Qed.
+Print Assumptions C10_announced_boundary_listener_gets_its_event.
+Theorem C10_delivery_to_announced_listener_is_forwarded : forall n s i s',
+  areach src_active_before_arm n s -> astep src_active_before_arm n s (ADeliver i) = Some s' -> got s' = aupd (got s) i.
+Proof. exact delivery_to_announced_is_forwarded. Qed.
+Print Assumptions C10_delivery_to_announced_listener_is_forwarded.
+(* opened only after the arming (a seeded change): the first listener's event, delivered on its announcement, is dropped *)
+Theorem C10_forwarding_refuted_when_opened_after_arming :
+  exists s, aexec false 3 (ainit 3) [AArm; ADeliver 0; AArm; AArm; ASetActive] = Some s /\ dropped s = 1 /\ got s = [0; 0; 0].
+Proof. exact refuted_active_after_arming. Qed.
+Print Assumptions C10_forwarding_refuted_when_opened_after_arming.
